@@ -58,8 +58,10 @@ func (vm *VM) runFunc(fn *Function, vars []reflect.Value) error {
 		if len(vm.calls) == 0 {
 			break
 		}
-		vm.calls = append(vm.calls, callFrame{cl: callable{fn: vm.fn}, renderer: vm.renderer, fp: vm.fp, status: panicked})
-		vm.fn = nil
+		if vm.fn != nil {
+			vm.calls = append(vm.calls, callFrame{cl: callable{fn: vm.fn}, renderer: vm.renderer, fp: vm.fp, status: panicked})
+			vm.fn = nil
+		}
 	}
 	if stop != nil {
 		close(stop)
